@@ -857,3 +857,13 @@ impl Report
 		line_info.label_width
 	}
 }
+
+#[cfg(hlorenzi_customasm_verif)]
+impl Report
+{
+	/// Verification hook: read-only access to the collected messages.
+	pub fn verif_messages(&self) -> &[Message]
+	{
+		&self.messages
+	}
+}
